@@ -163,6 +163,20 @@ def cast_int(step, k):
     return ITYPES[t](k)
 
 
+def cast_scalar(step, v):
+    """A scalar right-hand side handed over as the numpy scalar type the step names (values that come out of numpy
+    arrays are numpy scalars, not python numbers) -- only where that type holds the value exactly."""
+    t = step.get("sform")
+    if t is None or isinstance(v, (list, bool)) or not isinstance(v, (int, float)):
+        return v
+    if t in ("int64", "int32", "uint8", "int16"):
+        if float(v) != int(v) or not _fits({"int64": "i64", "int32": "i32", "uint8": "u8", "int16": "i16"}[t], [int(v)]):
+            return v
+        return np.dtype(t).type(int(v))
+    c = np.dtype(t).type(v)
+    return c if float(c) == float(v) else v
+
+
 def cast_arr(step, arr):
     """An index / subscript array in the integer type and memory layout the step names."""
     t = step.get("ityp")
@@ -472,6 +486,8 @@ class EngineA:
                 # equivalent subscript-array form so that the history (and the sparse
                 # tensor, which handles this key natively) keeps going
                 step["dense_via_subs"] = True
+            if step["op"].startswith("w_") and g.random() < cfg.get("p_ityp", 0.0):
+                step["sform"] = g.choice(["float64", "float32", "int64", "int32", "uint8", "int16"])
             if not step["op"].startswith("bad_") and g.random() < cfg.get("p_ityp", 0.0):
                 step["ityp"] = g.choice(["i64", "i32", "i32", "i16", "i8", "u8", "u8", "u16", "u32", "u64", "intp"])
                 if g.random() < 0.4:
@@ -881,8 +897,8 @@ class EngineA:
 
     @staticmethod
     def _forms(step) -> str:
-        if step.get("ityp") or step.get("alay"):
-            return f" [integers as {step.get('ityp', 'int')}, arrays {step.get('alay', 'C')}]"
+        if step.get("ityp") or step.get("alay") or step.get("sform"):
+            return f" [integers as {step.get('ityp', 'int')}, arrays {step.get('alay', 'C')}, scalar as {step.get('sform', 'python number')}]"
         return ""
 
     def _call(self, fn, what, op, i):
@@ -1070,7 +1086,7 @@ class EngineA:
         m.set(m.norm(key), v)
         for name in ("D", "S"):
             def do(name=name):
-                w[name][tuple(cast_int(step, k) for k in key)] = v
+                w[name][tuple(cast_int(step, k) for k in key)] = cast_scalar(step, v)
             self._call(do, f"{name}[{tuple(key)}] = {v}{self._forms(step)}", "w_full", i)
         if v == 0 and tuple(m.norm(key)) in bc:
             res.bump("probe:zero_write_removes_entry")
@@ -1112,10 +1128,10 @@ class EngineA:
                 v = np.array(vals, dtype=float).reshape(-1, 1)  # the form the sparse class asks for
             elif isinstance(vals, list) and step.get("vform") == "array":
                 v = np.array(vals, dtype=float)
-            w["D"][cast_arr(step, arr.copy())] = v
+            w["D"][cast_arr(step, arr.copy())] = cast_scalar(step, v)
 
         def do_s():
-            rhs = np.array(vals, dtype=float).reshape(-1, 1) if isinstance(vals, list) else vals
+            rhs = np.array(vals, dtype=float).reshape(-1, 1) if isinstance(vals, list) else cast_scalar(step, vals)
             w["S"][cast_arr(step, arr.copy())] = rhs
 
         self._call(do_d, f"D[subs {subs}] = {vals}{self._forms(step)}", "w_subs", i)
@@ -1228,10 +1244,10 @@ class EngineA:
         ttb = self.ttb
         if rhs["kind"] == "scalar":
             def do_d():
-                w["D"][self._akey(step, key)] = rhs["val"]
+                w["D"][self._akey(step, key)] = cast_scalar(step, rhs["val"])
 
             def do_s():
-                w["S"][self._akey(step, key)] = rhs["val"]
+                w["S"][self._akey(step, key)] = cast_scalar(step, rhs["val"])
         elif rhs["kind"] == "self":
             def do_d():
                 w["D"][self._akey(step, key)] = w["D"]
